@@ -108,7 +108,8 @@ def typed(rng, x):
 
 
 def cast(x, t):
-    return {"int": int, "float": float, "np.float64": np.float64, "np.int64": np.int64}[t](x)
+    return {"int": int, "float": float, "np.float64": np.float64, "np.int64": np.int64, "np.uint8": np.uint8,
+            "np.uint16": np.uint16}[t](x)
 
 
 PLAIN_OPS = ["ctor", "contains_pt", "contains_itv", "overlaps", "intersection", "add", "sub", "mul", "div", "round",
@@ -140,6 +141,9 @@ def gen(rng, n):
                 if op == "div" and x == 0:
                     x = -2
                 c["x"], c["xt"] = x, typed(rng, x)
+                if op in ("add", "sub") and isinstance(c["a"], float) and isinstance(c["b"], float) and rng.random() < 0.15:
+                    # an offset counted in an unsigned numpy integer (a frame counter, an image coordinate)
+                    c["x"], c["xt"] = rng.randint(0, 200), rng.choice(["np.uint8", "np.uint16"])
                 c["aug"] = rng.random() < 0.35      # written as an augmented assignment: I += x (same meaning)
             elif op == "round":
                 c["n"] = rng.randint(0, 12)
@@ -181,6 +185,8 @@ def gen(rng, n):
                 if abs(x) > 500:
                     x = 3.0
                 c["x"], c["xt"] = x, typed(rng, x)
+                if isinstance(c["a"], float) and isinstance(c["b"], float) and rng.random() < 0.15:
+                    c["x"], c["xt"] = rng.randint(0, 6), rng.choice(["np.uint8", "np.uint16"])
                 c["aug"] = rng.random() < 0.35
             elif op == "mvo":
                 c["a"] = rng.choice([rng.uniform(-30, 30), TWO_PI, -TWO_PI, 0.0, 7.0])
